@@ -143,3 +143,81 @@ def ragged_entries_holding_zeros_are_still_values(ctx, n):
         if ctx.canary and k == n - 1 and zero[k] and kinds[k] == "v2" and kinds[0] == "scalar":
             ok = False
         ctx.check("entry %d reads back with the same values, shape and unset-ness" % k, ok)
+
+
+# ---------------------------------------------------------------------------------------------------------------------
+# "returned on reading with the same values, shapes, NUMERIC KINDS and unset positions" for ragged collections whose
+# elements are not of numpy's default width (the quantifier names signed / unsigned widths and floats), and for entries
+# that have a length but no elements (shape (3, 0)) or no length (shape (0, 3)): "an empty entry among ragged ones
+# comes back unset" - or as the empty array it was - but it never makes the later entries change places.
+#
+# Candidate genuine defect (reported with a plain-Python reproduction): a ragged collection in which one object holds
+# a numpy scalar (np.int64(5), np.float32(1.5), ... - anything that is not a subclass of Python's int / float) is
+# accepted for writing, but JaggedArray.__init__ recognises only ndarray / list / tuple / int / float / None and
+# silently skips every other entry: it is neither stored nor listed as unset, the collection reads back one entry
+# short and the later entries move up.  The entry kind "npscalar" joins the symbolic choice when this flag is False.
+KNOWN_DEFECT_numpy_scalar_entries_of_ragged_collections_are_dropped = True
+
+DTYPES = ["int8", "int16", "int32", "int64", "uint8", "uint16", "uint32", "uint64", "float32", "float64", "bool"]
+EKINDS = ["none", "empty", "v1", "v3", "m12", "m21", "m30", "m03"] + \
+    ([] if KNOWN_DEFECT_numpy_scalar_entries_of_ragged_collections_are_dropped else ["npscalar"])
+
+
+def make_e(kind, base, dtype):
+    dt = np.dtype(dtype)
+    if kind == "none":
+        return None
+    if kind == "empty":
+        return []
+    if kind == "npscalar":
+        return dt.type(base)
+    if kind[0] == "v":
+        return np.arange(base, base + int(kind[1])).astype(dt)
+    shape = (int(kind[1]), int(kind[2]))
+    return np.arange(base, base + shape[0] * shape[1]).astype(dt).reshape(shape)
+
+
+@harness("C05", bounds="ragged collections of 2 (thorough: 3) entries whose elements all have one numeric kind, chosen "
+                       "symbolically among int8..int64, uint8..uint64, float32, float64, bool; entry kind symbolic "
+                       "among unset, empty list, 1-D of length 1 / 3, 1x2, 2x1, 3x0 (a length but no elements), 0x3 "
+                       "(no length)" + ("" if KNOWN_DEFECT_numpy_scalar_entries_of_ragged_collections_are_dropped
+                                        else ", numpy scalar") + "; routed through JaggedArray -> packSpecialData -> "
+                       "unpackSpecialData", stubs=STUBS, max_paths=60000,
+         instances={"quick": [dict(n=2)], "thorough": [dict(n=3)]})
+def ragged_collection_keeps_element_kind_and_places(ctx, n):
+    dtype = ctx.choice("elementKind", DTYPES)
+    kinds = [ctx.choice("kind%d" % k, EKINDS) for k in range(n)]
+    data = [make_e(kd, 1 + 7 * k, dtype) for k, kd in enumerate(kinds)]
+    unsetKinds = ("none", "empty", "m03")                # nothing to store for these
+    if all(kd in unsetKinds + ("m30",) for kd in kinds):
+        return                                           # no element at all: handled like an all-unset parameter
+    # entries must differ in shape to be ragged for the database; a collection of equal shapes takes another route
+    dims = {np.ndim(np.atleast_1d(d)) for d, kd in zip(data, kinds) if kd not in unsetKinds}
+    try:
+        ja = JaggedArray(data, "verifParam")
+    except ValueError:
+        ctx.check("only collections mixing 1-D and 2-D entries are refused", len(dims) > 1)
+        return
+    stored, attrs = packSpecialData(ja, "verifParam")
+    ctx.check("a collection with at least one value is stored", stored is not None)
+    if stored is None:
+        return
+    ctx.check("stored array is not an object array", stored.dtype != object)
+    if not any(kd in ("m30",) for kd in kinds):
+        ctx.check("the stored elements have the element kind of the entries", stored.dtype == np.dtype(dtype))
+    back = unpackSpecialData(np.array(stored, copy=True), dict(attrs), "verifParam").tolist()
+    ctx.check("one entry per object comes back", len(back) == n)
+    for k, kd in enumerate(kinds):
+        got = back[k] if k < len(back) else "missing"
+        if kd in unsetKinds:
+            ok = got is None
+        elif kd == "m30":
+            ok = got is None or (isinstance(got, np.ndarray) and got.shape == (3, 0))
+        else:
+            want = np.atleast_1d(data[k])
+            ok = (isinstance(got, np.ndarray) and got.shape == want.shape and bool(np.array_equal(got, want)))
+            if ctx.canary and dtype == "uint16" and kinds[0] == "v3" and kd == "v1" and k == n - 1:
+                ok = False
+            ctx.check("entry %d reads back with the element kind (signedness and width) it was written with" % k,
+                      isinstance(got, np.ndarray) and got.dtype == want.dtype)
+        ctx.check("entry %d reads back in its place with the same values, shape and unset-ness" % k, ok)
